@@ -5,7 +5,7 @@ import numpy as np
 from .. import core
 
 PROP_FILE = 'Knee/Props/C16.lean'
-PROP_FILES = ['Knee/Props/C16.lean', 'Knee/Props/Invariance.lean']
+PROP_FILES = ['Knee/Props/C16.lean', 'Knee/Props/C16S.lean', 'Knee/Props/Invariance.lean']
 RULE = ('vector pairs y != y_hat (the existing tests only compare a vector with itself), lengths 1..64, dyadic values (few significant bits, so the '
         'float result is within 1e-13 of the exact value), zeros (eps guard), constant y (tss = 0 branch), both R2 variants. The exact-Q model value is '
         'compared with the float result under |f - q| <= 1e-9*(|q| + S) (S = cancellation scale); squares are compared for rooted metrics; log values '
